@@ -11,6 +11,7 @@ import (
 	"rscheck/cfgq"
 	"rscheck/core"
 	"rscheck/flow"
+	"rscheck/lin"
 	"rscheck/pat"
 )
 
@@ -44,8 +45,13 @@ func (f Field) String() string {
 
 // fieldEval evaluates expressions to Fields inside one function body.
 type fieldEval struct {
-	info *types.Info
-	body *ast.BlockStmt
+	info     *types.Info
+	body     *ast.BlockStmt
+	prog     *core.Program                    // set: single-return helpers of the module are followed
+	known    func(ast.Expr) (int64, bool)     // the value of an expression at the site, from branch facts
+	knownLen func(types.Object) (int64, bool) // len(<local>) at the site, from branch facts
+	bound    map[types.Object][]ByteRef       // byte-slice parameters bound to the bytes of a read (table entries entered with their key)
+	calls    int
 }
 
 func basicOf(t types.Type) (width int, signed bool, ok bool) {
@@ -92,8 +98,13 @@ func (fe *fieldEval) eval(e ast.Expr, depth int) (Field, string) {
 		if d := pat.DefOf(fe.info, x); d != nil {
 			return fe.eval(d, depth+1)
 		}
-		if td, ok := pat.TupleDefOf(fe.info, x); ok && td.Index == 0 {
-			return fe.readCall(td.Call)
+		if td, ok := pat.TupleDefOf(fe.info, x); ok {
+			if td.Index == 0 {
+				if f, why := fe.readCall(td.Call); why == "" {
+					return f, ""
+				}
+			}
+			return fe.follow(td.Call, td.Index, depth)
 		}
 		return Field{}, "`" + x.Name + "` is not a single-assignment local defined from a read"
 	case *ast.IndexExpr:
@@ -133,7 +144,7 @@ func (fe *fieldEval) eval(e ast.Expr, depth int) (Field, string) {
 					return Field{}, why
 				}
 				if len(bytes) < n {
-					return Field{}, fmt.Sprintf("%s needs %d bytes, the buffer holds %d", fn.Name(), n, len(bytes))
+					return Field{}, fmt.Sprintf("%s decodes %d bytes, the read filled %d", fn.Name(), n, len(bytes))
 				}
 				bytes = append([]ByteRef{}, bytes[:n]...)
 				if recv == "bigEndian" {
@@ -164,7 +175,7 @@ func (fe *fieldEval) eval(e ast.Expr, depth int) (Field, string) {
 		if f, why := fe.readCall(x); why == "" {
 			return f, ""
 		}
-		return Field{}, "call `" + types.ExprString(x.Fun) + "` is not a known byte read"
+		return fe.follow(x, 0, depth)
 	case *ast.BinaryExpr:
 		switch x.Op {
 		case token.SHR, token.SHL:
@@ -368,6 +379,187 @@ func (fe *fieldEval) convert(f Field, from, to types.Type) (Field, string) {
 	return f, ""
 }
 
+// follow evaluates result idx of a call of a module function whose returns all
+// yield the same field (constant results of error returns are ignored).
+func (fe *fieldEval) follow(call *ast.CallExpr, idx, depth int) (Field, string) {
+	if fe.prog == nil || fe.calls > 6 {
+		return Field{}, "call `" + types.ExprString(call.Fun) + "` is not a known byte read"
+	}
+	f := core.CalleeFunc(fe.info, call)
+	if f == nil {
+		if fl, why, ok := fe.tableCall(call, depth); ok {
+			return fl, why
+		}
+	}
+	fn := fe.prog.FnOf(f)
+	if fn == nil || fn.Decl == nil || fn.Decl.Body == nil {
+		return Field{}, "call `" + types.ExprString(call.Fun) + "` is not a known byte read"
+	}
+	sub := &fieldEval{info: fn.Pkg.TypesInfo, body: fn.Decl.Body, prog: fe.prog, calls: fe.calls + 1}
+	var out *Field
+	why := ""
+	core.Inspect(fn.Decl.Body, func(n ast.Node) bool {
+		ret, ok := n.(*ast.ReturnStmt)
+		if !ok || why != "" {
+			return true
+		}
+		if idx >= len(ret.Results) {
+			why = "`" + fn.Name() + "` returns through named results"
+			return true
+		}
+		r := ast.Unparen(ret.Results[idx])
+		if _, isC := core.IntConst(sub.info, r); isC {
+			return true
+		}
+		fl, w := sub.eval(r, depth+1)
+		if w != "" {
+			why = fn.Name() + ": " + w
+			return true
+		}
+		if out != nil && (out.Lo != fl.Lo || out.Hi != fl.Hi || out.Signed != fl.Signed || len(out.Bytes) != len(fl.Bytes)) {
+			why = "`" + fn.Name() + "` returns different values on different paths"
+			return true
+		}
+		out = &fl
+		return true
+	})
+	if why != "" {
+		return Field{}, why
+	}
+	if out == nil {
+		return Field{}, "`" + fn.Name() + "` has no value-carrying return"
+	}
+	return *out, ""
+}
+
+// tableCall evaluates `h(buf)` where `h, ok := table[key]` (or `h := table[key]`)
+// picks a function literal out of a package-level map that is never written,
+// keyed by the byte width, and buf is `X.Slice(w)` with w the same value as key:
+// every entry is evaluated with its parameter bound to a read of key bytes; all
+// entries must be well-formed for their own width, the result reported is the
+// entry's (the caller checks it against the size of the read).
+func (fe *fieldEval) tableCall(call *ast.CallExpr, depth int) (Field, string, bool) {
+	id, ok := ast.Unparen(call.Fun).(*ast.Ident)
+	if !ok || len(call.Args) != 1 {
+		return Field{}, "", false
+	}
+	obj := fe.info.Uses[id]
+	var idx *ast.IndexExpr
+	ndef := 0
+	core.Inspect(fe.body, func(m ast.Node) bool {
+		as, isAs := m.(*ast.AssignStmt)
+		if !isAs || len(as.Rhs) != 1 {
+			return true
+		}
+		for i, l := range as.Lhs {
+			if lid, isId := l.(*ast.Ident); isId && (fe.info.Defs[lid] == obj || fe.info.Uses[lid] == obj) && obj != nil {
+				ndef++
+				if i == 0 {
+					idx, _ = ast.Unparen(as.Rhs[0]).(*ast.IndexExpr)
+				}
+			}
+		}
+		return true
+	})
+	if ndef != 1 || idx == nil {
+		return Field{}, "", false
+	}
+	tid, ok := ast.Unparen(idx.X).(*ast.Ident)
+	if !ok {
+		return Field{}, "", false
+	}
+	tv, ok := fe.info.Uses[tid].(*types.Var)
+	if !ok || tv.Pkg() == nil || tv.Parent() != tv.Pkg().Scope() {
+		return Field{}, "", false
+	}
+	// the table's literal, and no write to the table anywhere in its package
+	var lit *ast.CompositeLit
+	written := false
+	for _, pk := range fe.prog.Pkgs {
+		if pk.Types != tv.Pkg() {
+			continue
+		}
+		for _, file := range pk.Syntax {
+			ast.Inspect(file, func(m ast.Node) bool {
+				switch x := m.(type) {
+				case *ast.ValueSpec:
+					for i, nm := range x.Names {
+						if pk.TypesInfo.Defs[nm] == tv && i < len(x.Values) {
+							lit, _ = ast.Unparen(x.Values[i]).(*ast.CompositeLit)
+						}
+					}
+				case *ast.AssignStmt:
+					for _, l := range x.Lhs {
+						root := ast.Unparen(l)
+						if ix, isIx := root.(*ast.IndexExpr); isIx {
+							root = ast.Unparen(ix.X)
+						}
+						if rid, isId := root.(*ast.Ident); isId && pk.TypesInfo.Uses[rid] == tv {
+							written = true
+						}
+					}
+				case *ast.CallExpr:
+					if fid, isId := ast.Unparen(x.Fun).(*ast.Ident); isId && fid.Name == "delete" && len(x.Args) > 0 {
+						if rid, isId := ast.Unparen(x.Args[0]).(*ast.Ident); isId && pk.TypesInfo.Uses[rid] == tv {
+							written = true
+						}
+					}
+				}
+				return true
+			})
+		}
+	}
+	if lit == nil || written {
+		return Field{}, "", false
+	}
+	// the argument is a read whose size is the table key
+	arg, isId := ast.Unparen(call.Args[0]).(*ast.Ident)
+	if !isId {
+		return Field{}, "", false
+	}
+	td, okTd := pat.TupleDefOf(fe.info, arg)
+	if !okTd || td.Index != 0 || len(td.Call.Args) != 1 || lin.Key(fe.info, td.Call.Args[0]) != lin.Key(fe.info, idx.Index) {
+		return Field{}, "the buffer handed to the table entry is not a read of `key` bytes", true
+	}
+	var out *Field
+	for _, el := range lit.Elts {
+		kv, isKV := el.(*ast.KeyValueExpr)
+		if !isKV {
+			return Field{}, "", false
+		}
+		k, isC := fe.constOf(kv.Key)
+		fl, isLit := ast.Unparen(kv.Value).(*ast.FuncLit)
+		if !isC || !isLit || k <= 0 || k > 16 || len(fl.Type.Params.List) != 1 || len(fl.Type.Params.List[0].Names) != 1 || len(fl.Body.List) != 1 {
+			return Field{}, "", false
+		}
+		ret, isRet := fl.Body.List[0].(*ast.ReturnStmt)
+		if !isRet || len(ret.Results) != 1 {
+			return Field{}, "", false
+		}
+		bytes := make([]ByteRef, k)
+		for i := range bytes {
+			bytes[i] = ByteRef{Read: td.Call, Idx: i, Size: int(k)}
+		}
+		sub := &fieldEval{info: fe.info, body: fl.Body, prog: fe.prog, calls: fe.calls + 1,
+			bound: map[types.Object][]ByteRef{fe.info.Defs[fl.Type.Params.List[0].Names[0]]: bytes}}
+		f, why := sub.eval(ret.Results[0], depth+1)
+		if why != "" {
+			return Field{}, fmt.Sprintf("table entry %d: %s", k, why), true
+		}
+		if f.Lo != 0 || f.Hi != int(8*k) || !f.Signed || len(f.Bytes) != int(k) {
+			// report the malformed entry as it is: the caller's check names what is wrong
+			return f, "", true
+		}
+		if out == nil {
+			out = &f
+		}
+	}
+	if out == nil {
+		return Field{}, "", false
+	}
+	return *out, "", true
+}
+
 // readCall: the call is a read of a fixed number of bytes delivering a byte
 // or a byte slice: X.ReadByte(), X.Slice(k), X.ReadBytes(k) ...
 func (fe *fieldEval) readCall(call *ast.CallExpr) (Field, string) {
@@ -414,12 +606,95 @@ func (fe *fieldEval) buffer(e ast.Expr) ([]ByteRef, string) {
 	}
 	id, ok := e.(*ast.Ident)
 	if !ok {
+		// a scratch buffer that is not a local (a field of the reader): the bytes a
+		// full read filled just before, `io.ReadFull(r, X[:k])` / `readFull(X[:k])`
+		if _, isSel := e.(*ast.SelectorExpr); isSel {
+			var out []ByteRef
+			why := "the scratch buffer `" + types.ExprString(e) + "` is not filled by a full read of a constant window in this function"
+			nfill := 0
+			core.Inspect(fe.body, func(m ast.Node) bool {
+				call, ok := m.(*ast.CallExpr)
+				if !ok {
+					return true
+				}
+				name := ""
+				switch f := ast.Unparen(call.Fun).(type) {
+				case *ast.SelectorExpr:
+					name = f.Sel.Name
+				case *ast.Ident:
+					name = f.Name
+				}
+				if name != "ReadFull" && name != "readFull" && name != "Read" {
+					return true
+				}
+				for _, a := range call.Args {
+					a = ast.Unparen(a)
+					lo, hi := int64(0), int64(-1)
+					base := a
+					if sl, isSl := a.(*ast.SliceExpr); isSl {
+						base = ast.Unparen(sl.X)
+						if sl.Low != nil {
+							v, ok := fe.constOf(sl.Low)
+							if !ok {
+								continue
+							}
+							lo = v
+						}
+						if sl.High != nil {
+							v, ok := fe.constOf(sl.High)
+							if !ok {
+								continue
+							}
+							hi = v
+						}
+					}
+					if !pat.Same(fe.info, base, e) {
+						continue
+					}
+					nfill++
+					if name == "Read" {
+						why = "`" + types.ExprString(e) + "` is filled by a single Read, which may deliver fewer bytes than the window holds"
+						continue
+					}
+					if hi < 0 {
+						t := fe.info.TypeOf(base)
+						if at, isArr := t.Underlying().(*types.Array); isArr {
+							hi = at.Len()
+						} else {
+							continue
+						}
+					}
+					if hi <= lo || hi > 16 {
+						continue
+					}
+					out = make([]ByteRef, hi)
+					for i := lo; i < hi; i++ {
+						out[i] = ByteRef{Read: call, Idx: int(i - lo), Size: int(hi - lo)}
+					}
+				}
+				return true
+			})
+			if nfill == 1 && out != nil {
+				return out, ""
+			}
+			return nil, why
+		}
 		return nil, "buffer is not a local variable"
 	}
 	obj := fe.info.Uses[id]
+	if b, ok := fe.bound[obj]; ok {
+		return b, ""
+	}
 	if td, ok := pat.TupleDefOf(fe.info, id); ok && td.Index == 0 {
 		if sel, isSel := ast.Unparen(td.Call.Fun).(*ast.SelectorExpr); isSel && len(td.Call.Args) == 1 {
-			if k, isC := fe.constOf(td.Call.Args[0]); isC && k > 0 && k <= 16 && (sel.Sel.Name == "Slice" || sel.Sel.Name == "ReadBytes" || sel.Sel.Name == "Next") {
+			k, isC := fe.constOf(td.Call.Args[0])
+			if !isC && fe.known != nil {
+				k, isC = fe.known(td.Call.Args[0])
+			}
+			if !isC && fe.knownLen != nil {
+				k, isC = fe.knownLen(obj)
+			}
+			if isC && k > 0 && k <= 16 && (sel.Sel.Name == "Slice" || sel.Sel.Name == "ReadBytes" || sel.Sel.Name == "Next") {
 				if fe.writtenElsewhere(obj, nil) {
 					return nil, "`" + id.Name + "` is modified after the read"
 				}
@@ -433,6 +708,64 @@ func (fe *fieldEval) buffer(e ast.Expr) ([]ByteRef, string) {
 		return nil, "`" + id.Name + "` is not the result of a fixed-size read"
 	}
 	d := pat.DefOf(fe.info, id)
+	if sl, isSl := ast.Unparen(d).(*ast.SliceExpr); d != nil && isSl {
+		// b := scratch[lo:hi], filled completely by readFull(b) / io.ReadFull(r, b)
+		lo, hi := int64(0), int64(-1)
+		if sl.Low != nil {
+			v, ok := fe.constOf(sl.Low)
+			if !ok {
+				return nil, "slice bound is not constant"
+			}
+			lo = v
+		}
+		if sl.High != nil {
+			v, ok := fe.constOf(sl.High)
+			if !ok {
+				return nil, "slice bound is not constant"
+			}
+			hi = v
+		}
+		if hi < 0 || hi <= lo || hi-lo > 16 {
+			return nil, "`" + id.Name + "` is not a window of constant size"
+		}
+		var fill *ast.CallExpr
+		partial := ""
+		core.Inspect(fe.body, func(m ast.Node) bool {
+			call, ok := m.(*ast.CallExpr)
+			if !ok {
+				return true
+			}
+			name := ""
+			switch f := ast.Unparen(call.Fun).(type) {
+			case *ast.SelectorExpr:
+				name = f.Sel.Name
+			case *ast.Ident:
+				name = f.Name
+			}
+			for _, a := range call.Args {
+				if aid, isId := ast.Unparen(a).(*ast.Ident); isId && fe.info.Uses[aid] == obj {
+					switch name {
+					case "readFull", "ReadFull":
+						fill = call
+					case "Read":
+						partial = "`" + id.Name + "` is filled by a single Read, which may deliver fewer bytes than the window holds"
+					}
+				}
+			}
+			return true
+		})
+		if partial != "" {
+			return nil, partial
+		}
+		if fill == nil {
+			return nil, "`" + id.Name + "` is not filled by a full read"
+		}
+		out := make([]ByteRef, hi-lo)
+		for i := range out {
+			out[i] = ByteRef{Read: fill, Idx: i, Size: int(hi - lo)}
+		}
+		return out, ""
+	}
 	mk, ok := ast.Unparen(d).(*ast.CallExpr)
 	if d == nil || !ok {
 		return nil, "`" + id.Name + "` is not a single-assignment buffer"
@@ -698,4 +1031,202 @@ func ZiplistInts(c *core.Ctx, rule string, fn *core.Fn) {
 func CheckZiplistInts(c *core.Ctx, rule string) {
 	ZiplistInts(c, rule, c.Func("pkg/rdb", "rdbReader", "ReadZiplistEntry"))
 	ZiplistInts(c, rule, c.Func("pkg/libs/cupcake/rdb", "", "readZiplistEntry"))
+}
+
+// SignedIntsOfReads decides every integer rendering (strconv.FormatInt/Itoa/
+// AppendInt) inside fn, or inside region when given: the number rendered is the
+// little-endian two's-complement integer of ALL the bytes of ONE fixed-size read
+// (1, 2, 4 or 8 bytes), sign-extended from its own top bit. Values may come
+// through conversions, shifts, single-return helpers of the module
+// (readInt16 -> readUint16 -> readFull + binary.LittleEndian.Uint16) and
+// buffers whose size is known from the branch facts at the site
+// (`buf.Slice(int(intSize))` under `intSize == 2`).
+func SignedIntsOfReads(c *core.Ctx, rule string, fn *core.Fn, region ast.Node, label string, minSites int) {
+	if fn == nil {
+		return
+	}
+	if region == nil {
+		region = fn.Decl.Body
+	}
+	info := fn.Pkg.TypesInfo
+	e := flow.New(c.Program)
+	g := cfgq.Of(c.Program, fn)
+	isRender := func(f *types.Func) bool {
+		return f != nil && f.Pkg() != nil && f.Pkg().Path() == "strconv" && (f.Name() == "FormatInt" || f.Name() == "Itoa" || f.Name() == "AppendInt")
+	}
+	var bad, undec []string
+	n := 0
+	for _, cs := range e.Calls(g, region, isRender) {
+		if len(cs.Up) > 0 {
+			continue
+		}
+		var x ast.Expr
+		if cs.Fn.Name() == "AppendInt" {
+			if len(cs.Call.Args) > 1 {
+				x = cs.Call.Args[1]
+			}
+		} else if len(cs.Call.Args) > 0 {
+			x = cs.Call.Args[0]
+		}
+		if x == nil {
+			continue
+		}
+		n++
+		factIs := func(site flow.Site, match func(be *ast.BinaryExpr, side ast.Expr) bool) (int64, bool) {
+			for _, k := range []int64{1, 2, 3, 4, 8, 16} {
+				k := k
+				if e.Under(site, func(f cfgq.Fact) bool {
+					be, ok := ast.Unparen(flow.Positive(f)).(*ast.BinaryExpr)
+					if !ok || be.Op != token.EQL {
+						return false
+					}
+					for _, pr := range [][2]ast.Expr{{be.X, be.Y}, {be.Y, be.X}} {
+						if v, isC := core.IntConst(info, pr[1]); isC && v == k && match(be, pr[0]) {
+							return true
+						}
+					}
+					return false
+				}) {
+					return k, true
+				}
+			}
+			return 0, false
+		}
+		evalAt := func(site flow.Site, x ast.Expr) (Field, string) {
+			fe := &fieldEval{info: info, body: fn.Decl.Body, prog: c.Program}
+			fe.known = func(sz ast.Expr) (int64, bool) {
+				key := lin.Key(info, sz)
+				return factIs(site, func(_ *ast.BinaryExpr, side ast.Expr) bool { return lin.Key(info, side) == key })
+			}
+			fe.knownLen = func(obj types.Object) (int64, bool) {
+				return factIs(site, func(_ *ast.BinaryExpr, side ast.Expr) bool {
+					call, ok := ast.Unparen(side).(*ast.CallExpr)
+					if !ok || len(call.Args) != 1 {
+						return false
+					}
+					if bi, isB := core.Callee(info, call).(*types.Builtin); !isB || bi.Name() != "len" {
+						return false
+					}
+					id, isId := ast.Unparen(call.Args[0]).(*ast.Ident)
+					return isId && info.Uses[id] == obj
+				})
+			}
+			return fe.eval(x, 0)
+		}
+		check := func(where string, x ast.Expr, f Field) {
+			if len(f.Bytes) == 0 {
+				undec = append(undec, fmt.Sprintf("%s: `%s` is not assembled from the bytes of a read", where, types.ExprString(x)))
+				return
+			}
+			size := f.Bytes[0].Size
+			switch {
+			case size != 1 && size != 2 && size != 4 && size != 8:
+				undec = append(undec, fmt.Sprintf("%s: integer rendered from a %d-byte read", where, size))
+			case f.Lo != 0 || f.Hi != 8*size:
+				bad = append(bad, fmt.Sprintf("%s: the integer is rendered from bits [%d,%d) of a %d-byte read (want all %d bits): `%s`", where, f.Lo, f.Hi, size, 8*size, types.ExprString(x)))
+			case !f.Signed:
+				bad = append(bad, fmt.Sprintf("%s: the %d-byte integer is zero-extended, not sign-extended from bit %d: negative values come out as large positive ones: `%s`", where, size, f.Hi-1, types.ExprString(x)))
+			default:
+				for i, b := range f.Bytes {
+					if b.Read != f.Bytes[0].Read || b.Idx != i {
+						bad = append(bad, fmt.Sprintf("%s: bits [%d,%d) come from byte %d of the read (want byte %d, little-endian): `%s`", where, 8*i, 8*i+8, b.Idx, i, types.ExprString(x)))
+						break
+					}
+				}
+			}
+		}
+		where := c.Pos(cs.Call.Pos())
+		f, why := evalAt(cs.Site, x)
+		if why == "" {
+			check(where, x, f)
+			continue
+		}
+		// a local that receives the value in several branches (`switch width { case 2: v = … }`):
+		// every assignment is judged where it stands
+		inner := x
+		for {
+			inner = ast.Unparen(inner)
+			if cv, isCall := inner.(*ast.CallExpr); isCall && len(cv.Args) == 1 {
+				if tv, has := info.Types[cv.Fun]; has && tv.IsType() {
+					inner = cv.Args[0]
+					continue
+				}
+			}
+			break
+		}
+		id, isId := inner.(*ast.Ident)
+		var assigns []*ast.AssignStmt
+		if isId && info.Uses[id] != nil {
+			obj := info.Uses[id]
+			okAll := true
+			core.Inspect(fn.Decl.Body, func(m ast.Node) bool {
+				as, isAs := m.(*ast.AssignStmt)
+				if !isAs {
+					return true
+				}
+				for i, l := range as.Lhs {
+					lid, isL := ast.Unparen(l).(*ast.Ident)
+					if !isL || (info.Uses[lid] != obj && info.Defs[lid] != obj) {
+						continue
+					}
+					if len(as.Lhs) != len(as.Rhs) || (as.Tok != token.ASSIGN && as.Tok != token.DEFINE) || i >= len(as.Rhs) {
+						okAll = false
+						continue
+					}
+					assigns = append(assigns, &ast.AssignStmt{Lhs: []ast.Expr{l}, Rhs: []ast.Expr{as.Rhs[i]}, TokPos: as.Pos()})
+					_ = i
+				}
+				return true
+			})
+			if !okAll {
+				assigns = nil
+			}
+		}
+		if len(assigns) < 2 {
+			undec = append(undec, fmt.Sprintf("%s: `%s`: %s", where, types.ExprString(x), why))
+			continue
+		}
+		for _, as := range assigns {
+			rhs := as.Rhs[0]
+			if v, isC := core.IntConst(info, rhs); isC && v == 0 {
+				continue
+			}
+			pt, okp := g.Find(rhs)
+			if !okp {
+				// the site of the enclosing statement
+				core.Inspect(fn.Decl.Body, func(m ast.Node) bool {
+					if st, isSt := m.(*ast.AssignStmt); isSt && !okp {
+						for _, r := range st.Rhs {
+							if r == rhs {
+								pt, okp = g.Find(st)
+							}
+						}
+					}
+					return !okp
+				})
+			}
+			if !okp {
+				undec = append(undec, fmt.Sprintf("%s: cannot locate the assignment `%s`", where, types.ExprString(rhs)))
+				continue
+			}
+			f2, why2 := evalAt(flow.Site{G: g, At: pt}, rhs)
+			w2 := c.Pos(rhs.Pos())
+			if why2 != "" {
+				undec = append(undec, fmt.Sprintf("%s: `%s`: %s", w2, types.ExprString(rhs), why2))
+				continue
+			}
+			check(w2, rhs, f2)
+		}
+	}
+	key := fn.Name() + "/" + label
+	switch {
+	case len(bad) > 0:
+		c.Failf(rule, key, fn.Decl.Pos(), "integers stored in 1/2/4/8 bytes are little-endian two's-complement values; %s", strings.Join(bad, "; "))
+	case len(undec) > 0:
+		c.Undecidedf(rule, key, fn.Decl.Pos(), "cannot evaluate every integer rendered here: %s", strings.Join(undec, "; "))
+	case n < minSites:
+		c.Undecidedf(rule, key, fn.Decl.Pos(), "%d integer renderings found, %d confirmed on the pinned tree", n, minSites)
+	default:
+		c.Okf(rule, key, fn.Decl.Pos(), "%d integer renderings: width, byte order and sign extension agree with the bytes read", n)
+	}
 }
